@@ -2,5 +2,5 @@ SPECIFICATION Spec
 CONSTANTS MaxDen = 6
  MaxLen = 3
  MaxN = 24
-INVARIANTS C06_Sem
+INVARIANTS C06_Sem C06_ScaleLemma
 CHECK_DEADLOCK FALSE
